@@ -241,6 +241,21 @@ pub fn main(subjects: Vec<Box<dyn DynSubject>>, lay: (Layouts, BTreeMap<String, 
         std::fs::write(&out, serde_json::to_string(&j).unwrap()).unwrap();
         return;
     }
+    if prop == "C04" {
+        let start = std::time::Instant::now();
+        let ctx = Ctx { u: &u, model: Model::new(&u, &lay.0), units: &lay.1, tier, seed, prop: prop.clone(), cases: 1, tmp: tmp.clone(), known: &known };
+        let only_pair = replay.as_ref().and_then(|r| Some((r["env"]["t"].as_u64()? as usize, r["env"]["u"].as_u64()? as usize)));
+        if let Some(v) = replay.as_ref().and_then(|r| r.get("val")).and_then(|v| serde_json::from_value::<Val>(v.clone()).ok()) {
+            crate::checks::REPLAY_VAL.with(|c| *c.borrow_mut() = Some(v));
+        }
+        let rep = crate::checks::cross::run(&ctx, &subjects, &seqs, only_pair);
+        let mut j = rep.to_json();
+        j["wall_s"] = json!(start.elapsed().as_secs_f64());
+        j["subjects"] = json!(subjects.len());
+        j["universe"] = json!(u.label);
+        std::fs::write(&out, serde_json::to_string(&j).unwrap()).unwrap();
+        return;
+    }
     let check: CheckFn = if prop == "C16" { |_, _, _, _| {} } else { crate::checks::lookup(&prop).unwrap_or_else(|| panic!("unknown property {}", prop)) };
     let start = std::time::Instant::now();
     let mut idxs: Vec<usize> = (0..subjects.len()).filter(|i| only.map_or(true, |o| o == *i)).collect();
